@@ -271,44 +271,28 @@ Proof.
 Qed.
 
 (* PathMatch::match, as the code runs it, answers with the documented rules
-   - on every pattern whose stars are preceded (in the pattern text) by a
-     literal or the pattern start (star_ok),
    - when its iterators read the documented canonical forms (reads_canon_b),
    - the `pattern == path` shortcut being covered for real patterns or an
      empty base path (fast_ok). *)
 Theorem pathmatch_fuel_spec fuel pattern path base isdir b :
-  star_ok (iter_pattern pattern base) = true ->
   fast_ok pattern base = true ->
   reads_canon_b pattern path base = true ->
   pathmatch_fuel fuel pattern path base isdir = Some b ->
   (b = true <-> pathmatch_spec pattern path base isdir).
 Proof.
-  intros Hok Hf Hc H. rewrite (pathmatch_fuel_spec_iter_b fuel pattern path base isdir b Hok Hf H).
+  intros Hf Hc H. rewrite (pathmatch_fuel_spec_iter_b fuel pattern path base isdir b Hf H).
   rewrite pathmatch_spec_iter_b_iff. apply spec_iter_canon. exact Hc.
 Qed.
 
-(* star_ok cannot be dropped: "?*a" must match "ba" ('?' = b, '*' = empty);
-   the iterators read this pattern and path canonically *)
-Theorem pathmatch_star_refuted :
-  exists pattern path,
-    fast_ok pattern [] = true /\ reads_canon_b pattern path [] = true /\
-    pathmatch_model pattern path [] false = Some false /\
-    pathmatch_spec pattern path [] false.
-Proof.
-  exists [QM; STAR; 97], [98; 97]. split; [reflexivity|]. split; [vm_compute; reflexivity|].
-  split; [vm_compute; reflexivity|].
-  apply pathmatch_spec_b_iff. vm_compute. reflexivity.
-Qed.
-
 (* reads_canon_b cannot be dropped: the iterator reads "a//b" as "ab", so the
-   pattern "a/b" (star_ok, fast_ok) does not match the path "a//b" *)
+   pattern "a/b" (fast_ok) does not match the path "a//b" *)
 Theorem pathmatch_canon_refuted :
   exists pattern path,
-    star_ok (iter_pattern pattern []) = true /\ fast_ok pattern [] = true /\
+    fast_ok pattern [] = true /\
     pathmatch_model pattern path [] false = Some false /\
     pathmatch_spec pattern path [] false.
 Proof.
-  exists [97; SL; 98], [97; SL; SL; 98]. split; [vm_compute; reflexivity|]. split; [reflexivity|].
+  exists [97; SL; 98], [97; SL; SL; 98]. split; [reflexivity|].
   split; [vm_compute; reflexivity|].
   apply pathmatch_spec_b_iff. vm_compute. reflexivity.
 Qed.
